@@ -43,24 +43,27 @@ def main():
         out['ran'].append('/root/mut/run_suite.sh (repository test-suite in an isolated netns) with patch -> %s' % out['suite'])
     sh('git checkout -- pysyncobj', cwd=wt)
     # 2. checks against /repo with the change applied
+    assert sh('git -C %s status --porcelain' % REPO)[1].strip() == '', '/repo is not clean'
     rc, o = sh('git -C %s apply %s' % (REPO, diff))
     if rc != 0:
         rc, o = sh('git -C %s apply --3way %s' % (REPO, diff))
+        if rc != 0:
+            sh('git -C %s reset -q --hard HEAD' % REPO)
     assert rc == 0, 'patch does not apply to /repo: ' + o
     res = {}
     try:
         for p in props:
             t = time.time()
-            rc, o = sh('./check %s --tier quick --no-evidence' % p, cwd=VERIF, timeout=3000)
+            rc, o = sh('./check %s --tier quick --no-evidence' % p, cwd=VERIF, timeout=3600)
             viol = [l for l in o.splitlines() if l.startswith('VIOLATION')]
             detail = [l.strip() for l in o.splitlines() if l.strip().startswith('obligation=')]
             res[p] = dict(exit=rc, violations=viol[:6], detail=[d[:300] for d in detail[:4]], wall_s=round(time.time() - t, 1),
                           tail=o.strip().splitlines()[-1])
             out['ran'].append('./check %s --tier quick with patch applied to /repo -> exit %d (%d VIOLATION lines)' % (p, rc, len(viol)))
     finally:
-        sh('git -C %s checkout -- .' % REPO)
+        sh('git -C %s reset -q --hard HEAD' % REPO)
     out['checks'] = res
-    out['caught_by'] = sorted(p for p, r in res.items() if r['exit'] == 1)
+    out['caught_by'] = sorted(p for p, r in res.items() if r['exit'] == 1 and r['violations'])
     d = os.path.join(VERIF, 'seeded', sid)
     os.makedirs(d, exist_ok=True)
     shutil.copy(diff, os.path.join(d, 'patch.diff'))
